@@ -24,6 +24,11 @@ argument and result; TLC validates every record with spec/CsgTrace.tla:
       (encode, replace a volume by a constant, encode again, De Morgan);
   (c) FIXTURES: stored logic of every volume of every bundled .org.json evaluated by the real
       LogicEvaluator vs the spec's postfix machine.
+  (d) PRODUCTION PIPELINE: units built through the construction API (the C09 scene generator: solids, booleans,
+      daughters; UnitProto::build = replace_and_simplify of a daughter's exterior + PostfixLogicBuilder with the
+      surface remapping + InternalSurfaceFlagger), written by `vbuild export` and validated like the fixtures:
+      stored logic well formed, LogicEvaluator = postfix machine, and a volume NOT flagged `internal surfaces` is a
+      conjunction of literals (the flag as it reaches the runtime, not only the flagger called on its own).
 """
 import glob
 import hashlib
@@ -31,6 +36,7 @@ import json
 import os
 import re
 
+import solids
 import vlib
 
 LEVEL = "translation_validation"
@@ -120,8 +126,28 @@ def _family(ctx, level):
     return path, n
 
 
+def _generated_units(ctx, nscene):
+    """OrangeInput JSON of generated scenes (tools/solids.py) built by the real construction API."""
+    scenes = solids.make_scenes(ctx.seed + 10, nscene, max(2, nscene // 6), 0, grid_n=3)
+    scenes += solids.demorgan_gallery(ctx.seed, len(scenes), 3)
+    sp = ctx.path("gen_scenes.ndjson")
+    vlib.write_ndjson(sp, scenes)
+    odir = ctx.path("gen_units")
+    os.makedirs(odir, exist_ok=True)
+    lst = ctx.path("gen_units.txt")
+    r = vlib.run_harness("vbuild", ["export", sp, odir, lst], timeout=900,
+                         env={"CELER_LOG": "critical", "CELER_LOG_LOCAL": "critical"}, check=False)
+    if r.returncode != 0:
+        raise vlib.Broken("vbuild export exited %d:\n%s" % (r.returncode, (r.stderr or "")[-2000:]))
+    with open(lst) as fh:
+        files = [l.strip() for l in fh if l.strip() and not l.startswith("!")]
+    if len(files) < len(scenes) // 2:
+        raise vlib.Broken("vbuild export wrote only %d of %d scenes" % (len(files), len(scenes)))
+    return files
+
+
 def run(ctx):
-    vlib.build(["vcsg"])
+    vlib.build(["vcsg", "vbuild"])
     q = ctx.quick
     fixtures = sorted(glob.glob(os.path.join(vlib.REPO, "test/orange/data/*.org.json"))
                       + glob.glob(os.path.join(vlib.REPO, "test/geocel/data/*.org.json")))
@@ -145,6 +171,9 @@ def run(ctx):
         for k in range(nrand_shards):
             jobs.append(("rand%d" % k, ["rand", ctx.seed + 7919 * k, nprog, 10, 60], "rand"))
         jobs.append(("fix", ["fix", ctx.seed], "fix"))
+        gen_files = _generated_units(ctx, 24 if q else 300)
+        jobs.append(("genfix", ["fix", ctx.seed + 1], "genfix"))
+        ctx.coverage["generated_units_files"] = len(gen_files)
         fam_path, fam_size = _family(ctx, fam_level)
         if fam_path:
             for k in range(nfam):
@@ -158,7 +187,7 @@ def run(ctx):
         if kind == "replay":
             traces[name] = ctx.replay
         else:
-            traces[name] = _run_vcsg(ctx, name, args, fixtures if kind == "fix" else ())
+            traces[name] = _run_vcsg(ctx, name, args, fixtures if kind == "fix" else gen_files if kind == "genfix" else ())
         if kind == "exh":
             with open(traces[name]) as fh:
                 head = json.loads(fh.readline())
